@@ -6,7 +6,7 @@
 //	@ C04 slice <cmp> v…     Slice[int] from FromSlice          ops: push pop peek len rm fix set setfix popall popalln seq range rangeall popallbody pull next stop
 //	@ C04 slicen <cmp> <cap> Slice[int] from NewSlice(cap,·)    ops: as slice
 //	@ C04 heap <cmp> [<capA> <capB> [zv]]   two Heap[int] A, B from New(cap,·) (zv: zero values, Init comes first)
-//	                                        ops: init initc push pushe pop peek len rm fix setv setfix popall popalln seq range rangeall copyrm copyfix popallbody pull next stop
+//	                                        ops: init initc push pushe pop peek len rm fix setv setfix setrm popall popalln seq range rangeall copyrm copyfix popallbody pull next stop
 //	@ C04 generic <cmp> v…   generic functions on a recording container   ops: init push pop rm fix set
 //
 // `seq [A|B]` is `q := h.PopAll()` kept in the next slot (0,1,2…); `range <slot> <k>` / `rangeall <slot>` range
@@ -16,6 +16,12 @@
 //
 // Wave 5: `popallbody [A|B] <k> <item>…` ranges over PopAll() with a loop body that uses the heaps (body.go);
 // `pull <slot>` = `next, stop := iter.Pull(q_slot)` (cursor 0,1,2…), `next <cur>`, `stop <cur>`.
+//
+// Wave 6: `setrm <A|B> <e> <v>` = `el[e].Value = v; h.Remove(el[e])` — the value changes behind the heap's back
+// and the element is removed without a Fix in between (the package documents Fix as "equivalent to, but less
+// expensive than, calling Remove followed by a Push of the new value"); the same as the two lines `setv <e> <v>`,
+// `rm <H> <e>` / `set <i> <v>`, `rm <i>` (slice, generic). After Remove of the ONE changed element the heap is
+// in order again whatever v is; every other call on a heap holding a misplaced element is the caller's misuse.
 //
 // `popalln [A|B] <k>` (k >= 1) is `for x := range PopAll() { got = append(got, x); if len(got) == k { break } }`:
 // the consumer leaves the loop early (the model: k Pops, stopping at the first empty answer).
@@ -60,7 +66,7 @@ func init() {
 		NonTrivial: func(c core.Case, out []string) bool {
 			n := 0
 			for _, l := range c.Lines[1:] {
-				if strings.HasPrefix(l, "rm ") || strings.HasPrefix(l, "fix ") || strings.HasPrefix(l, "setfix ") {
+				if strings.HasPrefix(l, "rm ") || strings.HasPrefix(l, "fix ") || strings.HasPrefix(l, "setfix ") || strings.HasPrefix(l, "setrm ") {
 					n++
 				}
 			}
@@ -82,9 +88,15 @@ func init() {
 			{Name: "independent-objects", Run: worldExtra("independent-objects")},
 			{Name: "results-ledger", Run: worldExtra("results-ledger")},
 			{Name: "generic-after-panic", Run: extraGenericAfterPanic},
+			{Name: "zero-size", Run: extraZeroSize},
+			{Name: "type-matrix", Run: extraTypeMatrix},
+			{Name: "parallel-independent", Run: extraParallel},
 		},
 		Assumptions: []string{
-			"Go int treated as unbounded (the `j1 < 0` overflow guard of down is never taken)",
+			"Lean model: Go int treated as unbounded (the `j1 < 0` overflow guard of down / std_down is never taken); on the Go side the guard is exercised by Extra zero-size (containers of 2^62 .. MaxInt elements that cost no memory: Slice[struct{}], a virtual container for the generic functions)",
+			"the line protocol instantiates T = int; other element types (string, float64 incl. NaN under a strict weak order, structs, any with uncomparable values, pointers, struct{}) and comparators under which distinguishable elements compare equal are covered Go-only by Extra type-matrix; a comparator that is not a strict weak order (plain < on float64 with NaN) is outside the property",
+			"a Value changed behind the heap's back is repaired by Fix of that element or ended by Remove of that element (documented: Fix is equivalent to Remove followed by a Push of the new value); any other call on a heap holding a misplaced element is the caller's misuse and not judged",
+			"one object is used by one goroutine at a time (Extra parallel-independent: objects owned by different goroutines do not influence each other); concurrent use of ONE object is outside the property",
 			"PushElement is reached through Push and with handles that are in no heap (popped / removed / discarded by Init); an element still in a heap is undocumented misuse",
 			"the capacity region of Slice.Values beyond len (zeroed by Pop/Remove) is not observed",
 			"generic functions: an index outside the container panics inside the caller's Swap/Less (container/heap semantics); the oracle does not judge those calls (Extra generic-after-panic: the container's data is unchanged by such a call and later valid calls behave per the reference)",
@@ -153,7 +165,7 @@ func classify(c core.Case, out []string) []string {
 	if c.Tag == "large" {
 		// which branches the BIG containers took
 		for _, l := range ls {
-			if len(l) > 2 && l[1] == ':' && (strings.Contains(l, ":rm") || strings.Contains(l, ":fix") || strings.Contains(l, ":setfix") || strings.Contains(l, ":push:") || strings.Contains(l, ":popalln:") || strings.Contains(l, ":popall:") || strings.Contains(l, ":range") || strings.Contains(l, ":seq") || strings.Contains(l, ":copy") || strings.Contains(l, ":popallbody") || strings.Contains(l, ":pull") || strings.Contains(l, ":next")) {
+			if len(l) > 2 && l[1] == ':' && (strings.Contains(l, ":rm") || strings.Contains(l, ":fix") || strings.Contains(l, ":setfix") || strings.Contains(l, ":setrm") || strings.Contains(l, ":push:") || strings.Contains(l, ":popalln:") || strings.Contains(l, ":popall:") || strings.Contains(l, ":range") || strings.Contains(l, ":seq") || strings.Contains(l, ":copy") || strings.Contains(l, ":popallbody") || strings.Contains(l, ":pull") || strings.Contains(l, ":next")) {
 				ls = append(ls, "large:"+l)
 			}
 		}
@@ -501,10 +513,40 @@ func classifyCase(c core.Case, out []string) []string {
 			if n == 1 {
 				ls = append(ls, p+"rm:single")
 			}
+			// after-set: `set ix v` is the line before (Values[ix] = v, no Fix, then Remove(ix))
+			after := ""
+			if q := core.Toks(c.Lines[i-1]); i > 1 && len(q) == 3 && q[0] == "set" && q[1] == t[1] {
+				after = p + "rm:after-set"
+				ls = append(ls, after)
+			}
 			if ix == n-1 {
 				ls = append(ls, p+"rm:last")
+				if after != "" {
+					ls = append(ls, after+":last")
+				}
 			} else {
-				ls = append(ls, p+"rm"+move(ix, find(cur, prev[n-1])))
+				mv := move(ix, find(cur, prev[n-1]))
+				ls = append(ls, p+"rm"+mv)
+				if after != "" {
+					// which way the substitute went / which way a comparison of it with the NEW
+					// value of the removed element would have pointed
+					ls = append(ls, after+mv)
+					if ix == 0 {
+						ls = append(ls, after+":root")
+					}
+					if cmpf != nil {
+						pointsUp := cmpf(prev[n-1], prev[ix])
+						switch {
+						case mv == ":down" && pointsUp:
+							ls = append(ls, after+":down-though-substitute-precedes-new-value")
+						case mv == ":up" && !pointsUp:
+							ls = append(ls, after+":up-though-substitute-does-not-precede-new-value")
+						}
+					}
+					if n >= 64 {
+						ls = append(ls, after+":n>=64")
+					}
+				}
 			}
 		case "setfix":
 			ix, ok1 := atoi(t[1])
@@ -680,6 +722,16 @@ func smallCorpus() []core.Case {
 		{Lines: []string{"@ C04 heap gt", "init A 1 2 3 4 5 6 7", "popallbody A 0 0:push:A:9 1:push:A:9 1:peek:A 3:pop:A 3:len:A 4:fix:A:0 4:rm:A:1", "len A"}},
 		{Lines: []string{"@ C04 slice key 5000 3000 8000", "popallbody 2 0:push:1000 0:peek 1:len 1:rm:0", "len", "popallbody 0 0:push:9001 0:push:2 0:pop 0:rm:-1 0:rm:7 0:fix:0 1:peek 2:peek 2:pop", "popallbody 0 0:push:1", "popallbody 1"}},
 		{Lines: []string{"@ C04 slice gt 1 2 3 4 5 6 7", "popallbody 0 0:push:9 1:push:9 1:peek 3:pop 3:len 4:fix:0 4:rm:1 5:rm:0", "len"}},
+		// wave 6: the Value changes and the element is removed WITHOUT a Fix (setv + rm / setrm / set + rm). The
+		// substitute (the last element) must be sifted by its new neighbours, not by a comparison with the value
+		// the removed element carries: id 3 (index 3, under 10) gets 0 — the substitute 4 still has to go UP;
+		// the root gets 99 — the substitute still has to go DOWN; stale and foreign handles: only the value changes
+		{Lines: []string{"@ C04 heap lt", "init A 1 10 2 11 12 3 4", "setv 3 0", "rm A 3", "peek A", "setv 0 99", "rm A 0", "pop A", "popall A"}},
+		{Lines: []string{"@ C04 heap lt", "init A 1 10 2 11 12 3 4", "push B 7", "setrm A 3 0", "setrm A 0 99", "peek A", "setrm A 3 5", "setrm B 3 6", "setrm A 7 7", "setrm B 7 1", "len B", "setrm A 6 4", "pop A", "popall A"}},
+		{Lines: []string{"@ C04 heap rkey 2 1", "init A 1000 2001 3002 4003 5004 1005 2006 7007 8008", "setrm A 0 -9000", "setrm A 5 99999005", "setv 6 8006", "rm A 6", "setrm A 8 8008", "setrm A 7 1", "popall A"}},
+		{Lines: []string{"@ C04 slice lt 1 10 2 11 12 3 4", "set 3 0", "rm 3", "peek", "set 0 99", "rm 0", "pop", "set 3 -5", "rm 3", "popall"}},
+		{Lines: []string{"@ C04 slice key 1000 10001 2002 11003 12004 3005 4006", "set 4 4999", "rm 4", "set 0 99999000", "rm 0", "set 1 4007", "rm 1", "popall"}},
+		{Lines: []string{"@ C04 generic lt 1 10 2 11 12 3 4", "init", "set 3 0", "rm 3", "set 0 99", "rm 0", "pop", "set 3 -5", "rm 3", "pop", "pop"}},
 		// wave 5: iter.Pull cursors over a held Seq: one next() = one Pop of the shared heap; a cursor that met
 		// the empty heap (or was stopped) stays finished, also after new pushes
 		{Lines: []string{"@ C04 heap lt", "seq A", "init A 4 2", "pull 0", "pull 0", "next 0", "next 1", "next 0", "push A 9", "next 0", "stop 1", "next 1", "len A", "pull 0", "next 2", "next 2"}},
